@@ -7,6 +7,7 @@ import (
 	"math/rand/v2"
 	"os"
 	"path/filepath"
+	"runtime"
 	"strings"
 	"sync"
 	"sync/atomic"
@@ -53,16 +54,26 @@ type fcEnv struct {
 	fc      *filecache.FileCache
 	handles []*lent // in order of first acquisition
 	negRefs bool
+	// slowEvict: the eviction callback yields (concurrent family): whatever the cache does around the
+	// callback must not let another goroutine see the entry half removed
+	slowEvict bool
+	evictions atomic.Int64
 }
 
 func newFcEnv(dir string, cap0 int) *fcEnv {
 	e := &fcEnv{dir: dir, fc: filecache.New(cap0)}
-	for i := 0; i < 3; i++ {
-		e.names = append(e.names, filepath.Join(dir, string(rune('a'+i))))
-	}
+	// the three names are spelled differently: clean, with a "." element, with a doubled separator (all legal;
+	// the cache must treat a name exactly as its users spell it)
+	e.names = []string{filepath.Join(dir, "a"), dir + "/./b", dir + "//c"}
 	e.fc.SetOnEvicted(func(f *os.File, refs int) {
 		if refs < 0 {
 			e.negRefs = true
+		}
+		if e.slowEvict {
+			runtime.Gosched()
+			if e.evictions.Add(1)%4 == 0 {
+				time.Sleep(30 * time.Microsecond)
+			}
 		}
 	})
 	return e
@@ -224,7 +235,7 @@ func init() {
 		Race:  true,
 		Cases: func(tier string) int { a, b, c := c14Counts(tier); return a + b + c },
 		Run:   runC14,
-		Rule: "three families on filecache.FileCache with real files: (1) bounded-exhaustive: ALL sequences up to length L (quick 5, thorough 6) over {Open(a|b|c), Close(h) for every currently lent handle, Remove(a|b|c), Clear, SetCacheSize(0|1|2|3)} from initial capacities {0,1,2}; after every step a shadow table of lent handles is used to check: every lent handle is open and refers to its file, legitimate Close returns nil, released-but-open handles <= Len() <= released+lent, Len() <= Cap() when Cap()>0, descriptors under the scratch directory == released-cached + lent, no negative reference count, no panic; (2) random sequences of length 30-200; (3) concurrent stress in the race build: 8 goroutines Open/ReadAt/Close while others Remove/Clear/SetCacheSize, each ReadAt on a handle the goroutine still holds must not fail with ErrClosed, full accounting at quiescence; (4) the cache's users inside the store: a flushed, reopened store with FileCacheSize 1-2 and many small index/primary files is read by 6 Get/Has/GetSize loops while 2 goroutines run whole-store iterations and one toggles SetFileCacheSize - a lookup failing with a closed-file error (or any error, wrong value, panic) means some user gave a handle back while it was still lent to another; every fourth of these cases is the scripted window G21 (reader A parked between obtaining the cached handle of a primary file and reading from it, while reader B's read of a location GC truncated off that file fails; A's read must still succeed); (5) slow-open overlaps: an Open that blocks inside open(2) (a FIFO opened for reading) is overlapped with SetCacheSize(0|1), Clear, Remove of that name or a resize through 0, then completed by opening the FIFO's write end; the lent handle must be usable and at quiescence open descriptors == Len() <= Cap(). " +
+		Rule: "three families on filecache.FileCache with real files: (names are spelled three ways: clean, with a '.' element, with a doubled separator) (1) bounded-exhaustive: ALL sequences up to length L (quick 5, thorough 6) over {Open(a|b|c), Close(h) for every currently lent handle, Remove(a|b|c), Clear, SetCacheSize(0|1|2|3)} from initial capacities {0,1,2}; after every step a shadow table of lent handles is used to check: every lent handle is open and refers to its file, legitimate Close returns nil, released-but-open handles <= Len() <= released+lent, Len() <= Cap() when Cap()>0, descriptors under the scratch directory == released-cached + lent, no negative reference count, no panic; (2) random sequences of length 30-200; (3) concurrent stress in the race build: 8 goroutines Open/ReadAt/Close while others Remove/Clear/SetCacheSize, each ReadAt on a handle the goroutine still holds must not fail with ErrClosed (in half of the runs the OnEvicted callback yields and sleeps), full accounting at quiescence; (4) the cache's users inside the store: a flushed, reopened store with FileCacheSize 1-2 and many small index/primary files is read by 6 Get/Has/GetSize loops while 2 goroutines run whole-store iterations and one toggles SetFileCacheSize - a lookup failing with a closed-file error (or any error, wrong value, panic) means some user gave a handle back while it was still lent to another; every fourth of these cases is the scripted window G21 (reader A parked between obtaining the cached handle of a primary file and reading from it, while reader B's read of a location GC truncated off that file fails; A's read must still succeed); (5) slow-open overlaps: an Open that blocks inside open(2) (a FIFO opened for reading) is overlapped with SetCacheSize(0|1), Clear, Remove of that name or a resize through 0, then completed by opening the FIFO's write end; the lent handle must be usable and at quiescence open descriptors == Len() <= Cap(). " +
 			"non-trivial iff the case observed an eviction of a lent handle (removed-map path) and a resize through 0; distinct = distinct accounting states (cap, Len, released, lent) seen",
 		Assumptions: []string{
 			"eviction order and over-eviction are deliberately not modelled, only the accounting identities of the statement",
@@ -428,6 +439,7 @@ func runC14(c run.Ctx) *core.CaseResult {
 func c14Concurrent(c run.Ctx, res *core.CaseResult, dir string, ob *c14Obs) {
 	r := gen.Rng(c.Seed, propStream("C14conc"), uint64(c.Index))
 	e := newFcEnv(dir, 1+r.IntN(3))
+	e.slowEvict = c.Index%2 == 0
 	var wg sync.WaitGroup
 	var bad atomic.Value
 	var reads, opens, evicts atomic.Int64
